@@ -231,6 +231,7 @@ type c05RealCase struct {
 // loopback server: connection-pool queueing, dialling and redirect hops all
 // happen inside the transport and must be covered by the latency.
 func runC05Real(run *ev.Run, cs c05RealCase) {
+	waitForPorts(run, 16000, 90*time.Second)
 	mux := http.NewServeMux()
 	delay := time.Duration(cs.HandlerUs) * time.Microsecond
 	for i := 0; i < cs.Redirects; i++ {
